@@ -326,6 +326,30 @@ func c13Forwarding(c *kit.Ctx, m *ruModel, e *kit.Func, sb *c13Sub, r8 *kit.Rule
 						found = true
 					}
 				}
+				if !found && isVar {
+					// a local that is assigned the caller's parameter (`src := pts`,
+					// possibly replaced on another path)
+					ast.Inspect(k.Body, func(y ast.Node) bool {
+						as, ok := y.(*ast.AssignStmt)
+						if !ok || len(as.Lhs) != len(as.Rhs) {
+							return true
+						}
+						for j, l := range as.Lhs {
+							if kit.ObjOf(k.Info(), l) != types.Object(p) {
+								continue
+							}
+							if _, isId := ast.Unparen(l).(*ast.Ident); !isId {
+								continue
+							}
+							for _, kp := range kparams {
+								if kit.ObjOf(k.Info(), as.Rhs[j]) == types.Object(kp) && !found {
+									p, found = kp, true
+								}
+							}
+						}
+						return true
+					})
+				}
 				if !found {
 					allParams = false
 					break
